@@ -63,6 +63,33 @@ def sumFrom : Dec → List Dec → Option Dec
 
 def sum (l : List Dec) : Option Dec := sumFrom zero l
 
+/-! ### overflow (`checked_add`/`checked_mul` = `None`) as opposed to silent rounding
+
+When the exact result is not representable `rust_decimal` first lowers the scale (half-even rounding) and
+reports an overflow only if the value does not fit 96 bits even at scale 0.  If the integer part alone
+exceeds 2⁹⁶−1 that is certain; if it is below 2⁹⁶−1 the result is a rounded value (F17, not modelled);
+on the edge the model does not decide. -/
+
+/-- `a.checked_mul(b) = None` for certain -/
+def mulOverflows (a b : Dec) : Bool :=
+  decide ((a.coeff * b.coeff) / 10 ^ (a.scale + b.scale) > max96)
+
+/-- `a.checked_add(b) = None` for certain -/
+def addOverflows (a b : Dec) : Bool :=
+  let s := max a.scale b.scale
+  let x : Int := sgn a.neg * ((a.coeff * 10 ^ (s - a.scale) : Nat) : Int)
+  let y : Int := sgn b.neg * ((b.coeff * 10 ^ (s - b.scale) : Nat) : Int)
+  decide ((x + y).natAbs / 10 ^ s > max96)
+
+/-- the fold of `sumFrom` stops at an addition that overflows for certain -/
+def sumFromOverflows : Dec → List Dec → Bool
+  | _, [] => false
+  | acc, d :: t => match add acc d with
+    | some s => sumFromOverflows s t
+    | none => addOverflows acc d
+
+def sumOverflows (l : List Dec) : Bool := sumFromOverflows zero l
+
 /-- value comparison (`Ord for Decimal` is by value) -/
 def cmpVal (a b : Dec) : Ordering := compare a.units b.units
 def eqVal (a b : Dec) : Bool := a.units == b.units
